@@ -219,6 +219,7 @@ func TestVerifAckTracker(t *testing.T) {
 		sut := newAckSUT(maxPer, sess, msgs)
 		rec.Begin(map[string]any{"cfg": map[string]any{"maxPer": maxPer}}, map[string]any{"pending": 0})
 		steps := 10 + rng.Intn(30)
+		hotS, hotM := sess[rng.Intn(len(sess))], msgs[rng.Intn(len(msgs))]
 		for i := 0; i < steps; i++ {
 			s := func() string { return sess[rng.Intn(len(sess))] }
 			m := func() int64 { return msgs[rng.Intn(len(msgs))] }
@@ -229,6 +230,12 @@ func TestVerifAckTracker(t *testing.T) {
 				return 1 + rng.Int63n(sut.next-1)
 			}
 			var ev map[string]any
+			// hot key: most binds/cancels/finishes of a trace hit one key so that several attempts overlap
+			if rng.Intn(3) > 0 {
+				hs, hm := hotS, hotM
+				s = func() string { return hs }
+				m = func() int64 { return hm }
+			}
 			switch r := rng.Intn(100); {
 			case r < 25:
 				at := int64(0)
